@@ -207,14 +207,22 @@ func c09Frozen(c *vrep.Ctx) {
 				before = append(before, vStateHash(cl, false))
 			}
 		}
-		c.R.Rule = fmt.Sprintf("shared footprint is read-only, small scope: ALL inputs of <=%d words over {aa,bb,cc,OOV} on %d frozen classifiers (every pointer-free corpus array mprotect-ed read-only): no store into corpus memory, deep state hash unchanged after every call; non-trivial = calls that scored at least one candidate (returned a match)", maxLen, len(cls))
+		c.R.Rule = fmt.Sprintf("shared footprint is read-only, small scope: ALL inputs of <=%d words over {aa,bb,cc,OOV} in three layouts (one line; the first word broken over a line end by a hyphen; one word per line) on %d frozen classifiers (every pointer-free corpus array mprotect-ed read-only): no store into corpus memory, deep state hash unchanged after every call; non-trivial = calls that scored at least one candidate (returned a match)", maxLen, len(cls))
 		c.Bound("max_input_words", maxLen)
 		body := func(r *vx.Run) {
 			words := vChooseWords(r, vSmallAlphabet, 0, maxLen)
+			layout := r.Choose(3, "layout")
 			if r.Scout() {
 				return
 			}
 			in := []byte(strings.Join(words, " "))
+			switch {
+			case layout == 1 && len(words) >= 2:
+				// the first word is broken over a line end by a hyphen
+				in = []byte(words[0] + "-\n" + strings.Join(words[1:], " "))
+			case layout == 2:
+				in = []byte(strings.Join(words, "\n") + "\n")
+			}
 			var msgs []string
 			for i, cl := range cls {
 				res, fault := guardedMatch(cl, in)
